@@ -17,7 +17,19 @@ na = {
 }
 pending = {}  # claimed by DESIGN.md, engine not landed yet: listed as not_applicable? No: simply absent until built.
 checks=[]
+ADDENDA = {
+ "C02": " Added in the seeded waves (DESIGN 8.6): the caller's one input buffer (same address, new content, sometimes a window of a larger buffer with a quote behind it) is overwritten after every call; stream mode with a document straddling the first 32 KiB fill, one large document, and an option switched on between two Decodes; interfaces pre-populated with typed nils, plain values and []any holding pointers; fields sharing one slice or one (possibly empty) map; a target with several pointer fields per scalar kind.",
+ "C07": " Added in the seeded waves: the worker is built with -d=checkptr; proto.Parse driven by the caller and compared with Scan; Fixed32/Fixed64 values; Scan-versus-Unmarshal oracle over re-spellings of varints; every prefix also sliced off in place (the rest of the message behind len); inputs at one reused address and two offsets; a destination decoded into again and again, also pre-filled with one-element slices; messages nested 300..4000 levels deep; a short message after a long one; foreign numbers aliasing declared ones modulo 2^8/2^16/2^24 both ways.",
+ "C08": " Added in the seeded waves: strings / binaries of 65537..300000 bytes cut around every power of two, trailing bytes behind them; a long-lived Decoder over a stream of values, Reset after a failure, strict mode surviving Reset; MissingField and TypeMismatch below the top level; element / key / value types of non-empty collections; a required field removed while another is repeated; foreign id 0 and EOF right behind a foreign field; emptied destinations reused; embedded structs (three levels); messages written from the type's tags with a sample value per field; named collection types; inputs at one reused address.",
+ "C09": " Added in the seeded waves: decode inputs are windows with caller-owned memory behind them that another task writes to; read-only inputs shared by several calls; zero-copy Parse flags; Marshal outputs beyond 64 KiB with the caller filling the spare capacity of what it was given; maps of 127..300 keys (themed runs); RawMessages marshalled from one reused buffer; times in several zones; caches pre-populated with 70..260 types; proto.Type accessors; calls on types the codecs refuse; case-changed keys and corrupted inputs.",
+ "C10": " Added in the seeded waves: every value decoded without a zero-copy flag is deep-copied and compared as a whole after every later operation; Tokenizer.String results tracked, one Tokenizer reused through Reset; the buffers the Decoder passed to Read are known by address; everything a zero-copy Decoder handed out is frozen once that Decoder is finished; RawMessage arguments that are windows of guarded buffers; the utility entry points (Append, MarshalIndent, Valid, Compact, Indent, HTMLEscape, Escape, Unescape); integer-representation flags; long mixed-case keys; ,string strings.",
+ "C11": " Added in the seeded waves: values compared again after the stream; a reader error wrapping io.EOF; the reader's own error demanded inside a value too; runs of 99..300 zero-length reads; options set between two Decodes; readers returned by Buffered read in two parts around another Buffered call; accessors before the first Decode; a second Decoder used in turns; the last value aligned to a fill boundary with whitespace only behind it; drawn whitespace patterns.",
+ "C16": " Added in the seeded waves: several values of one type per run, also stored in turn in one variable, changed in place between two encodes, or with two fields sharing one slice; empty strings sliced from non-empty ones; values beyond 64 KiB / 1 MiB with sampled destination lengths; field numbers beyond 16 bits; every field number in the produced bytes must be declared at its level (reference parser); top-level RawMessage, byte arrays, scalars; maps with pointer values; untagged fields behind unexported ones.",
+ "C17": " Added in the seeded waves: nesting up to 10000 levels, sibling counts around 2^8 and 2^16; invalid UTF-8 next to valid multi-byte text and literal U+FFFD; escaped surrogate pairs at the range boundaries; escaped backslash runs up to 19; one input buffer per tokenizer (same address, new content, sometimes a window with a quote behind it); records of the previous document's shape after Reset; String() results kept and read again later.",
+}
+
 def chk(pid, engine, cat, text, note, tech, ref):
+    text = text + ADDENDA.get(pid, "")
     checks.append({"property_id":pid,"quick_cmd":f"./check {pid} quick","thorough_cmd":f"./check {pid} thorough",
       "evidence_file":f"/verif/evidence/{pid}.json","replay_cmd_template":f"./check {pid} --replay {{path}}","engine":engine,
       "level_claimed":{"category":cat,"text":text,"design_ref":ref},"level_note":note,"technique":tech})
